@@ -410,6 +410,89 @@ func c03Cross(c *Ctx) {
 	c03Run(c, m, len(applied) > 0, fmt.Sprint(applied))
 }
 
+// c03Rings: parent_station rings of n stops (n up to 40), optionally with a tail of stops
+// leading into the ring and listed before / after it, and plain chains of n stops.
+func c03Rings(c *Ctx) {
+	n := []int{1, 2, 3, 5, 8, 9, 10, 12, 17, 25, 40}[c.Free("ring_size", 11)]
+	shape := c.Free("shape", 3) // 0 ring, 1 ring + tail listed first, 2 chain (no cycle)
+	tail := 0
+	if shape == 1 {
+		tail = 1 + c.Free("tail_length", 3)
+	}
+	m := genStaticFeedN(c, false, baseCounts, nil, nil)
+	t := m.t("stops.txt")
+	p := protoRow(t)
+	t.Rows = nil
+	add := func(id, parent string) {
+		t.Rows = append(t.Rows, append([]string{}, p...))
+		r := len(t.Rows) - 1
+		t.set(r, "stop_id", id)
+		t.set(r, "parent_station", parent)
+		t.set(r, "location_type", "")
+	}
+	for i := 0; i < tail; i++ { // tail stops first: t0 -> t1 -> ... -> ring member 0
+		parent := fmt.Sprintf("t%d", i+1)
+		if i == tail-1 {
+			parent = "s0"
+		}
+		add(fmt.Sprintf("t%d", i), parent)
+	}
+	for i := 0; i < n; i++ {
+		parent := fmt.Sprintf("s%d", (i+1)%n)
+		if shape == 2 && i == n-1 {
+			parent = ""
+		}
+		add(fmt.Sprintf("s%d", i), parent)
+	}
+	// keep stop_times / transfers resolvable or not: they are irrelevant here
+	c.Witness("long_parent_chain_or_ring")
+	c03Run(c, m, true, fmt.Sprintf("stops: shape %d (0 ring, 1 ring with tail, 2 chain) of %d stops, tail %d", shape, n, tail))
+}
+
+// c03Concat: ids chosen so that different (route, service) / (from, to) pairs concatenate to
+// the same string, in consecutive rows.
+func c03Concat(maxRows int) Harness {
+	return func(c *Ctx) { c03ConcatRun(c, maxRows) }
+}
+
+func c03ConcatRun(c *Ctx, maxRows int) {
+	m := genStaticFeedN(c, false, baseCounts, nil, nil)
+	rt := m.t("routes.txt")
+	pr := protoRow(rt)
+	rt.Rows = nil
+	for i, id := range []string{"A", "AB", "1", "11"} {
+		rt.Rows = append(rt.Rows, append([]string{}, pr...))
+		rt.set(i, "route_id", id)
+	}
+	cal := m.t("calendar.txt")
+	pc := protoRow(cal)
+	cal.Rows = nil
+	for i, id := range []string{"BC", "C", "11", "1"} {
+		cal.Rows = append(cal.Rows, append([]string{}, pc...))
+		cal.set(i, "service_id", id)
+	}
+	m.t("calendar_dates.txt").Rows = nil
+	routes := []string{"A", "AB", "1", "11", "ABC", "RX"}
+	services := []string{"BC", "C", "11", "1", "", "CX"}
+	tr := m.t("trips.txt")
+	pt := protoRow(tr)
+	tr.Rows = nil
+	n := 1 + c.Free("trips.rows", maxRows)
+	var desc []string
+	for r := 0; r < n; r++ {
+		ro := routes[c.Free(fmt.Sprintf("trips[%d].route_id", r), len(routes))]
+		se := services[c.Free(fmt.Sprintf("trips[%d].service_id", r), len(services))]
+		tr.Rows = append(tr.Rows, append([]string{}, pt...))
+		tr.set(r, "trip_id", fmt.Sprintf("T%d", r+1))
+		tr.set(r, "route_id", ro)
+		tr.set(r, "service_id", se)
+		tr.set(r, "shape_id", "")
+		desc = append(desc, fmt.Sprintf("(%q,%q)", ro, se))
+	}
+	c.Witness("ids_with_colliding_concatenations")
+	c03Run(c, m, n >= 2, "trips (route,service) "+strings.Join(desc, " "))
+}
+
 func c03Growth(c *Ctx) {
 	k := 1 + c.Free("rows_per_table", 40)
 	n := staticCounts{agencies: k, routes: k, stops: k, transfers: k, calendars: k, calendarDates: k, shapes: k, shapePoints: 2, trips: k, frequencies: k, stopTimes: 2 * k}
@@ -422,7 +505,7 @@ func init() {
 	register(&Check{
 		ID:    "C03",
 		Level: "model_checking",
-		Rule: "full products per table: stops 0..3 rows (thorough 0..4) x stop_id {'',S1,S2,S3} x parent {'',S1,S2,S3,SX}; routes 0..3 x agency_id {'',A,B,AX} x 6 agency configurations (single, two, duplicate ids, blank ids); trips 0..2 (thorough 3) x route/service/shape alphabets x duplicate route ids; stop_times 0..2 (thorough 3) x trip {T1,'',T2,TX} x stop {S1,'',SX,S2} x duplicate trip ids; transfers 0..3 (quick 2) x from/to alphabets x duplicate stop ids; map iteration starts 0, 1, 2 applied uniformly to every library range; plus <= 2 deviations over all id / reference cells of an 18-table-row feed and a growth sweep 1..40 rows per table; " +
+		Rule: "full products per table: stops 0..3 rows (thorough 0..4) x stop_id {'',S1,S2,S3} x parent {'',S1,S2,S3,SX}; routes 0..3 x agency_id {'',A,B,AX} x 6 agency configurations (single, two, duplicate ids, blank ids); trips 0..2 (thorough 3) x route/service/shape alphabets x duplicate route ids; stop_times 0..2 (thorough 3) x trip {T1,'',T2,TX} x stop {S1,'',SX,S2} x duplicate trip ids; transfers 0..3 (quick 2) x from/to alphabets x duplicate stop ids; map iteration starts 0, 1, 2 applied uniformly to every library range; plus <= 2 deviations over all id / reference cells of an 18-table-row feed parent rings / rings with a tail / chains of up to 40 stops, trips over (route, service) pairs whose concatenations collide, and a growth sweep 1..40 rows per table; " +
 			"non-trivial = distinct archives with at least two rows in the table under study (or any deviation); oracle = pointer-identity / named-id / forest invariants",
 		Assumptions: []string{"each result entity is traced to its row through a free-text column carrying the row number", "a route that names no agency may be linked only when there is exactly one agency"},
 		Scenarios: func(tier string) []*Scenario {
@@ -437,6 +520,8 @@ func init() {
 				{Name: "stop_times-product", Bound: -1, Run: c03StopTimes(stt)},
 				{Name: "transfers-product", Bound: -1, Run: c03Transfers(tf)},
 				{Name: "cross-table", Bound: 2, Run: c03Cross},
+				{Name: "rings-and-chains", Bound: -1, Run: c03Rings},
+				{Name: "colliding-concatenations", Bound: -1, Run: c03Concat(tr)},
 				{Name: "growth-sweep", Bound: -1, Run: c03Growth},
 			}
 		},
